@@ -151,8 +151,10 @@ DepsReady(t, p) == \A d \in Imports[p] : Have(t, d)
 Schedulable(k) ==
   LET t == k[1]  p == k[2]  tool == k[3] IN
   /\ tpc[t] = "going" /\ kpc[k] = "none" /\ DepsReady(t, p)
-  /\ CASE tool = "asm1" -> p \in AsmPkgs /\ ~Have(t, p)
-       [] tool = "compile" -> ~Have(t, p) /\ (p \in AsmPkgs => kpc[<<t, p, "asm1">>] = "done")
+  \* (cmd/go decides what is stale when the build starts: a package may be compiled although a concurrent
+  \* command has stored the same object in the meantime, so there is no "not cached yet" guard)
+  /\ CASE tool = "asm1" -> p \in AsmPkgs
+       [] tool = "compile" -> (p \in AsmPkgs => kpc[<<t, p, "asm1">>] = "done")
        [] OTHER -> p \in AsmPkgs /\ kpc[<<t, p, "compile">>] = "done"
 
 (* toolexec-start: loadSharedCache reads the file in the shared dir *)
